@@ -44,8 +44,8 @@ class Opt:
         return "%s/%s/%s" % (self.flags(), self.po, self.pi)
 
 
-def model_line(opt, sid, orig, igs, tree):
-    return "\t".join(["tab", opt.flags(), opt.po if opt.po in PO else "other", opt.pi if opt.pi in PI else "other",
+def model_line(opt, sid, orig, igs, tree, endpoint=False):
+    return "\t".join(["tab", opt.flags() + ("1" if endpoint else "0"), opt.po if opt.po in PO else "other", opt.pi if opt.pi in PI else "other",
                       hexs(sid), hexs(orig), hexs(igs), tree])
 
 
@@ -177,9 +177,19 @@ def gen_tab_cases(tier, seed, salt=40, n_trees=None, n_texts=None, max_rows=256)
                       "orig": rng.choice([b"", b"the original text", b"two\nlines | and a bar"]), "igs": rng.choice([b"", b"A(x) I(y)", b"A(\"q\") |"])})
     tg = TX.TG(rng, suffix_p=0.25, annot_p=0.3, shared_p=0.3)
     for i in range(n_texts):
-        parts = tg.stmt(rng.choice([0, 0, 1, 1, 2, 3]), maxleaves=3)
+        if i % 4 == 3:
+            parts = TX.priv_stmt(tg)          # suffix-linked private properties (single values, combinations, nested statements)
+        else:
+            parts = tg.stmt(rng.choice([0, 0, 1, 1, 2, 3]), maxleaves=3)
         cases.append({"stream": "P", "parts": parts, "text": TX.r_stmt(parts), "opt": rnd_opt(rng), "id": rng.choice([b"7", b"123", b"a.1", b"1.1"]),
                       "orig": rng.choice([b"", b"the original text"])})
+    if n_texts:
+        # all matchings of three properties (nested / primitive) against a suffixed and an unsuffixed component value
+        pairs = TX.PRIV_PAIRS if tier == "thorough" else [TX.PRIV_PAIRS[(seed + k) % 5] for k in range(2)]
+        for parts in TX.priv_systematic(tg, pairs):
+            o = rnd_opt(rng)
+            o.ext = True
+            cases.append({"stream": "P", "parts": parts, "text": TX.r_stmt(parts), "opt": o, "id": b"7", "orig": b""})
     return cases
 
 
@@ -209,15 +219,24 @@ def run_tab_cases(build, cases, V, want_spec=True):
             else:
                 continue
         if build.modelrun:
-            lines.append(model_line(c["opt"], c["id"], c["orig"], c["igs"], c["tree"]))
+            lines.append(model_line(c["opt"], c["id"], c["orig"], c["igs"], c["tree"], endpoint=(c["stream"] == "P")))
             idx.append(i)
     mod = run_lines([build.modelrun], lines) if build.modelrun else []
-    mism = {"rows": 0, "out": 0, "err": 0, "crash": 0}
+    mism = {"rows": 0, "out": 0, "err": 0, "crash": 0, "excluded_known_finding_F21": 0}
     for i, ml in zip(idx, mod):
         c = cases[i]
         r = c["impl"]
         kind, m = parse_model(ml)
         c["model"] = (kind, m)
+        if c.get("root") is not None and c["stream"] == "P" and partially_withdrawn(c["root"]):
+            # known finding F21 (stale parent pointers after a partial withdrawal cannot be represented by the value-based
+            # model): reported under C05 / C16, excluded from the correspondence and from the other predicates
+            mism["excluded_known_finding_F21"] += 1
+            if V.pid in ("C05", "C16"):
+                V.violation("private-property:combination-partially-withdrawn", {"tree": c["tree"], "text": c.get("text")},
+                            what="private property combination only partly withdrawn from the shared properties")
+            c["tabs"] = None
+            continue
         if "panic" in r or "exit" in r or "timeout" in r:
             if kind in ("panic", "fatal"):
                 continue  # predicted by the model: outside the domain of the export
@@ -284,7 +303,7 @@ def run_tab_cases(build, cases, V, want_spec=True):
 
 def clean_py(s):
     """CleanInput as the repository defines it at present (kept in step with Model/Tabular.clean_input by the correspondence)."""
-    return re.sub(rb"\r?\n", b" ", s).replace(b"|", b"")
+    return re.sub(rb"\r\n|\r|\n", b" ", s).replace(b"|", b"")
 
 
 def adjust_py(s, gs):
@@ -308,3 +327,39 @@ def own_rows(tab_rows):
             break
         out.append(r)
     return out
+
+
+# ------------------------------------------------------------------ known finding F21
+PROP_FIELDS = {b"A,p": ["Ap", "ApC"], b"Bdir,p": ["Bdirp", "BdirpC"], b"Bind,p": ["Bindp", "BindpC"], b"E,p": ["Ep", "EpC"], b"P,p": ["Pp", "PpC"], b"Cex": ["Cex", "CexC"]}
+
+
+def partially_withdrawn(root):
+    """True when some statement below root carries a value both as private link of a component value and still as
+    leaf of the shared property field it was to be withdrawn from (signature of F21)."""
+    def stmt_has(st):
+        shared = {}
+        for f, n in st:
+            for lf in leaves(n):
+                if isinstance(lf[6], bytes):
+                    shared.setdefault(f, set()).add(lf[6])
+        for f, n in st:
+            for lf in leaves(n):
+                for pv in lf[7]:
+                    if isinstance(pv[6], bytes):
+                        for pf in PROP_FIELDS.get(pv[1], []):
+                            if pv[6] in shared.get(pf, ()):
+                                return True
+        return any(stmt_has(x) for x in nested_statements(st)[:0])   # nested ones are visited below
+    for n in top_statement_nodes(root):
+        st = n[6][1]
+        if stmt_has(st) or any(stmt_has(x) for x in nested_statements(st)):
+            return True
+    return False
+
+
+@matcher("private_combination_partially_withdrawn")
+def _m_f21(case, k):
+    try:
+        return bool(case.get("tree")) and partially_withdrawn(rnode(case["tree"]))
+    except Exception:
+        return False
